@@ -103,7 +103,7 @@ func checkC10(c *Ctx) {
 		"different accessories), against a started hc.NewIPTransport; every step is followed by a fence request on every open connection. " +
 		"non-trivial = history in which at least one EVENT was delivered. Model: exact multiset of (receiver, characteristic, value) per step")
 	c.Assume("events are attributed to a step by a following request/response on the same connection (hc writes notifications synchronously from the goroutine that changed the value)")
-	n := c.Pick(32, 600)
+	n := c.Pick(32, 1500)
 	type res struct{ line, impl string }
 	results := make([]res, n)
 	parallel(n, func(i int) {
